@@ -110,7 +110,8 @@ class NonTrainable(AbstractUnwrappable[T]):
     _dummy: ClassVar[None] = None
 
     def unwrap(self) -> T:
-        differentiable, static = eqx.partition(self.tree, eqx.is_array_like)
+        # Only arrays: python scalars (e.g. the ints in a shape) must stay static
+        differentiable, static = eqx.partition(self.tree, eqx.is_array)
         return eqx.combine(lax.stop_gradient(differentiable), static)
 
 
